@@ -2,7 +2,7 @@
 
 Cases are histories of TableManager operations over a small colliding domain
 (3 peers + the local source, 2 sessions per peer, 2 IPv4 and 2 VPNv4 prefixes,
-3 next hops, 6 attribute blocks in 3 rank classes, 3 VRFs).  The harness
+3 IPv4 and 2 IPv6 next-hop addresses in the three wire forms, 7 attribute blocks in 3 rank classes, 3 VRFs).  The harness
 (harness/daemon/table_manager_hx.rs, verif_fib_cases) drives a real TableManager
 with a capturing KernelHandle; the model is coq/Model/Fib.v.  The oracle below is
 the python mirror of coq/Spec/FibSpec.v and judges the implementation's own
@@ -20,7 +20,7 @@ def mk_cfg(k):
     attrs = [[0, 1, 0, 0, [1]], [1, 1, 0, 0, [2]], [2, 1, 0, 1, []], [3, 2, 0, 0, [1, 2]],
              [4, 0, 1, 0, [3]], [5, 3, 0, 0, []], [6, 1, 1, 0, [1]]]                  # tok, pref, llgrc, nollgr, rts
     vrfs = [[5, [1]], [6, [2, 3]], [0, [1]]] if k % 2 == 0 else [[5, [1, 2]], [7, [9]]]
-    pols = [[[1, [1]]], [[2, [2, 3]], [3, [1]]], [[1, [2, 2]], [2, [0]]]]
+    pols = [[[1, [1]]], [[2, [2, 3]], [3, [1]]], [[1, [2, 2 if k % 2 else 101]], [2, [0]]]]
     return dict(peers=peers, attrs=attrs, vrfs=vrfs, pols=pols)
 
 def cfg_to_val(c):
@@ -37,11 +37,28 @@ def cfg_to_coq(c):
     pols = clist([clist(['(%s, %s)' % (cN(p), act_coq(a)) for p, a in pol]) for pol in c['pols']])
     return '{| c_peers := %s; c_attrs := %s; c_vrfs := %s; c_pols := %s |}' % (peers, attrs, vrfs, pols)
 
+# next hop forms: None, or [0,a] IPv4, [1,a] 16-byte IPv6, [2,a,l] 32-byte IPv6 global + link-local
+# (a bare integer in older corpus files is an IPv4 next hop); address ids >= 100 are IPv6 addresses
+def nh_norm(nh):
+    if nh is None:
+        return None
+    if isinstance(nh, int):
+        return [0, nh]
+    return list(nh)
+
+def nh_coq(nh):
+    nh = nh_norm(nh)
+    if nh is None:
+        return 'None'
+    if nh[0] == 0: return '(Some (NhV4 %s))' % cN(nh[1])
+    if nh[0] == 1: return '(Some (NhV6 %s))' % cN(nh[1])
+    return '(Some (NhV6LL %s %s))' % (cN(nh[1]), cN(nh[2]))
+
 def op_to_val(o):
     t = o[0]
     if t == 'ins':
         _, peer, sess, (k, i), pid, nh, tok = o
-        return [0, peer, sess, k, i, pid, [] if nh is None else [nh], tok]
+        return [0, peer, sess, k, i, pid, [] if nh is None else [nh_norm(nh)], tok]
     if t == 'rem':
         _, peer, sess, (k, i), pid = o
         return [1, peer, sess, k, i, pid]
@@ -54,7 +71,7 @@ def op_to_coq(o):
     pf = lambda p: '(%s, %s)' % (cN(p[0]), cN(p[1]))
     if t == 'ins':
         _, peer, sess, p, pid, nh, tok = o
-        return '(Insert %s %s %s %s %s %s)' % (cN(peer), cN(sess), pf(p), cN(pid), copt(None if nh is None else cN(nh)), cN(tok))
+        return '(Insert %s %s %s %s %s %s)' % (cN(peer), cN(sess), pf(p), cN(pid), nh_coq(nh), cN(tok))
     if t == 'rem':
         _, peer, sess, p, pid = o
         return '(Remove %s %s %s %s)' % (cN(peer), cN(sess), pf(p), cN(pid))
@@ -97,8 +114,9 @@ class Prop:
                            'soft_reset_in) with a capturing kernel::KernelHandle (harness/daemon/table_manager_hx.rs verif_fib_cases)')
     rule = ('a case is a history of <= 28 operations; non-trivial when some FIB request carries >= 2 next hops or a withdrawal follows an '
             'install; distinct = distinct (configuration, canonical request stream); the thorough tier adds every sequence of <= 3 operations '
-            'over a 14-letter alphabet after a two-insert prefix (2954 cases) and 495 kernel reference-count sequences')
+            'over a 16-letter alphabet after a two-insert prefix (4368 cases) and 495 kernel reference-count sequences')
     exhaustive = {'quick': False, 'thorough': False}
+    ops_field = 'ops'           # lib/vp/check.py shrink_case drops operations of a failing history
     trusted_base = [
         'C20: the RIB is abstracted to what distribute_update / ecmp_paths / the NHT calls read: per path (peer, session, path id, next hop, '
         'attribute-block identity, rank class, LLGR_STALE/NO_LLGR bits, route targets, filtered, next-hop-invalid); RibEntry::cmp is its '
@@ -156,7 +174,7 @@ class Prop:
         ops = []
         peers = [1, 2, 3]
         prefixes = [(0, 1), (0, 2), (1, 1), (1, 2)]
-        if flavour == 'plain':
+        if flavour in ('plain', 'v6'):
             prefixes = [(0, 1), (0, 1), (0, 2)]
         elif flavour == 'vpn':
             prefixes = [(1, 1), (1, 1), (1, 2), (0, 1)]
@@ -170,6 +188,9 @@ class Prop:
                 p = rng.choice(prefixes)
                 pid = rng.choice([0, 0, 0, 1])
                 nh = rng.choice([1, 2, 3, 1, 2, None]) if rng.random() < 0.9 else None
+                if flavour == 'v6' or rng.random() < 0.2:
+                    # IPv6 next hops in both wire forms, sharing the global addresses 101 / 102
+                    nh = rng.choice([[1, 101], [2, 101, 1], [2, 101, 2], [1, 102], [2, 102, 1], [0, 1], None])
                 r = rng.random()
                 tok = rng.choice(toks_tied) if r < 0.7 else rng.choice([2, 4, 5, 6])
                 if peer == 0:
@@ -182,7 +203,7 @@ class Prop:
                     pid = 1 - pid if pid in (0, 1) else 0
                 ops.append(('rem', peer, sess[peer], p, pid))
             elif x < 0.70:
-                ops.append(('nhv', rng.choice([1, 2, 3]), rng.random() < 0.45))
+                ops.append(('nhv', rng.choice([101, 101, 102, 1] if flavour == 'v6' else [1, 2, 3, 101]), rng.random() < 0.45))
             elif x < 0.75:
                 ops.append((rng.choice(['drop', 'unreg']), rng.choice(peers)))
             elif x < 0.81:
@@ -205,7 +226,7 @@ class Prop:
         cases = []
         n = 1200 if tier == 'quick' else 12000
         for k in range(n):
-            flavour = ['mixed', 'plain', 'vpn', 'llgr', 'mixed'][k % 5]
+            flavour = ['mixed', 'plain', 'vpn', 'llgr', 'v6', 'mixed'][k % 6]
             ln = rng.choice([2, 3, 4, 6, 8, 12, 16, 22, 28])
             ops = self.gen_ops(rng, ln, flavour)
             if k % 7 == 3:
@@ -213,11 +234,12 @@ class Prop:
                 ops += [('pol', rng.choice([1, 2, 3])), ('reset', rng.choice([1, 2, 3])), ('pol', 0), ('reset', rng.choice([1, 2]))]
             cases.append(dict(cfg=mk_cfg(k % 6), shards=1 + (k % 3), ops=ops))
         if tier == 'thorough':
-            # every sequence of <= 3 operations over a 14-letter alphabet built around one prefix
+            # every sequence of <= 3 operations over a 16-letter alphabet built around one prefix
             # with two tied paths, after a fixed two-insert prefix (exhaustive small space)
             import itertools
             P1 = (0, 1)
             al = [('ins', 1, 0, P1, 0, 1, 0), ('ins', 2, 0, P1, 0, 2, 1), ('ins', 3, 0, P1, 0, 1, 5), ('ins', 2, 0, P1, 0, None, 0),
+                  ('ins', 2, 0, P1, 0, [2, 101, 1], 1), ('nhv', 101, False),
                   ('rem', 1, 0, P1, 0), ('rem', 2, 0, P1, 0), ('nhv', 1, False), ('nhv', 1, True), ('drop', 2),
                   ('mstale', 1), ('dstale', 1), ('mllgr', 2), ('pol', 3), ('reset', 2)]
             for d in (1, 2, 3):
@@ -302,10 +324,10 @@ class Prop:
                 net = tuple(net)
                 for peer, sess, pid, nh, tok, unf in allp:
                     if peer != 0 and nh:
-                        cnt[nh[0]] = cnt.get(nh[0], 0) + 1
+                        cnt[nh[0][1]] = cnt.get(nh[0][1], 0) + 1
                 # (3) unreachable next hops are excluded from selection, reachable ones are not
                 sel = sorted([e[0], e[1], e[2], e[3]] for e in el)
-                exp = sorted([p[0], p[1], p[3], p[4]] for p in allp if p[5] and not (p[3] and p[3][0] in unreach))
+                exp = sorted([p[0], p[1], p[3], p[4]] for p in allp if p[5] and not (p[3] and p[3][0][1] in unreach))
                 if sel != exp:
                     return 'step %d: %s selectable paths %s but the unfiltered paths with a reachable next hop are %s' % (k, list(net), sel, exp)
                 if not el:
@@ -315,7 +337,7 @@ class Prop:
                     return (1 if (llgr or ainfo[tok][1]) else 0, ainfo[tok][0], pinfo.get(peer, (peer, 0))[1], stale)
                 m = min(skey(e) for e in el)
                 ecmp = [e for e in el if skey(e) == m]
-                nhs = sorted(set(e[2][0] for e in ecmp if e[2]))
+                nhs = sorted(set(e[2][0][1] for e in ecmp if e[2]))
                 if net[0] == 0:
                     want_fib[(None, net)] = nhs
                 else:
@@ -347,28 +369,6 @@ class Prop:
 
     def in_known_class(self, kf, c, obs, why):
         return False
-
-    def shrink(self, c, why):
-        """drop operations while the implementation still fails the Spec oracle"""
-        if c.get('kind') == 'ref':
-            return c
-        import re
-        m = re.match(r'step (\d+):', why or '')
-        cur = dict(c)
-        if m:
-            cur['ops'] = c['ops'][:int(m.group(1)) + 1]
-        for _ in range(40):
-            cands = [dict(cur, ops=cur['ops'][:i] + cur['ops'][i + 1:]) for i in range(len(cur['ops']))]
-            if not cands:
-                break
-            obs, err = self.run_impl(cands, 'quick')
-            if obs is None:
-                break
-            nxt = next((cd for cd, o in zip(cands, obs) if self.oracle(cd, o)), None)
-            if nxt is None:
-                break
-            cur = nxt
-        return cur
 
     def nontrivial_key(self, c, obs):
         if c.get('kind') == 'ref':
